@@ -56,7 +56,7 @@ static cregex_node_t* parse_char_class(regex_parse_context *context) {
   const char *from = context->sp;
 
   for ( ; ; ) {
-    int ch = *context->sp++;
+    int ch = (unsigned char) *context->sp++; /* bytes >= 0x80 sort after ASCII, never below '\0' */
     switch (ch) {
       case '\0':
         /* premature end of character class */
@@ -70,12 +70,16 @@ static cregex_node_t* parse_char_class(regex_parse_context *context) {
         .type = type, .from = from, .to = context->sp - 1
       });
       case '\\':
-        ch = *context->sp++;
+        ch = (unsigned char) *context->sp++;
+        if (ch == '\0') {
+          /* premature end of character class */
+          return NULL;
+        }
       /* fall-through */
       default:
 CHARACTER:
         if (*context->sp == '-' && context->sp[1] != ']') {
-          if (context->sp[1] < ch) {
+          if (context->sp[1] == '\0' || (unsigned char) context->sp[1] < ch) {
             /* empty range in character class */
             return NULL;
           }
@@ -86,12 +90,20 @@ CHARACTER:
   }
 }
 
+/* bounds of {n,m} above this are not intervals (taken literally); keeps nmin/nmax far from INT_MAX */
+#define REGEX_MAX_INTERVAL 100000
+
 static cregex_node_t* parse_interval(regex_parse_context *context) {
   const char *from = context->sp;
   int nmin, nmax;
 
-  for (nmin = 0; *context->sp >= '0' && *context->sp <= '9'; ++context->sp)
+  for (nmin = 0; *context->sp >= '0' && *context->sp <= '9'; ++context->sp) {
+    if (nmin > REGEX_MAX_INTERVAL) {
+      context->sp = from;
+      return NULL;
+    }
     nmin = (nmin * 10) + (*context->sp - '0');
+  }
 
   if (*context->sp == ',') {
     ++context->sp;
@@ -99,8 +111,13 @@ static cregex_node_t* parse_interval(regex_parse_context *context) {
       nmax = -1;
     } else {
       for (nmax = 0; *context->sp >= '0' && *context->sp <= '9';
-           ++context->sp)
+           ++context->sp) {
+        if (nmax > REGEX_MAX_INTERVAL) {
+          context->sp = from;
+          return NULL;
+        }
         nmax = (nmax * 10) + (*context->sp - '0');
+      }
       if (  *(context->sp - 1) == ',' || *context->sp != '}'
          || nmax < nmin) {
         context->sp = from;
@@ -134,6 +151,10 @@ static cregex_node_t* parse_context(regex_parse_context *context, int depth) {
       /* Characters */
       case '\\':
         ch = *context->sp++;
+        if (ch == '\0') {
+          /* dangling escape */
+          return NULL;
+        }
       /* fall-through */
       default:
 CHARACTER:
@@ -271,7 +292,14 @@ static cregex_node_t* parse_with_nodes(
   return parse_context(context, 0);
 }
 
+/* parser, compiler and VM recurse over the pattern: its length bounds the nesting of groups, the number of
+ * alternatives and the depth of the concatenation tree */
+#define REGEX_MAX_PATTERN 2048
+
 cregex_node_t* cregex_parse(const char *pattern) {
+  if (strlen(pattern) > REGEX_MAX_PATTERN) {
+    return NULL;
+  }
   size_t size = sizeof(cregex_node_t) * estimate_nodes(pattern);
   cregex_node_t *nodes = malloc(size);
   if (!nodes) {
